@@ -9,7 +9,9 @@ import HalmosVerif.Gen.Selectors
 namespace HalmosVerif.Props.C13
 open HalmosVerif.Lemmas.KeccakTables HalmosVerif.Gen.Selectors
 
-theorem assertSelectors0_ok : assertSelectors0.all selOk = true := by decide +kernel
-theorem assertSelectors1_ok : assertSelectors1.all selOk = true := by decide +kernel
+theorem assertSelectors0_ok : assertSelectors0.all selOk = true :=
+  all_quarters 10 (by decide +kernel) (by decide +kernel) (by decide +kernel) (by decide +kernel)
+theorem assertSelectors1_ok : assertSelectors1.all selOk = true :=
+  all_quarters 10 (by decide +kernel) (by decide +kernel) (by decide +kernel) (by decide +kernel)
 
 end HalmosVerif.Props.C13
